@@ -13,6 +13,8 @@ macro_rules! dispatch {
             "C06" => $f(&props::hist2::C06, $($arg),*),
             "C07" => $f(&props::hist2::C07, $($arg),*),
             "C10" => $f(&props::hist2::C10, $($arg),*),
+            "C11" => $f(&props::streams::C11, $($arg),*),
+            "C13" => $f(&props::streams::C13, $($arg),*),
             "C14" => $f(&props::attack::C14, $($arg),*),
             "C15" => $f(&props::attack::C15, $($arg),*),
             "C16" => $f(&props::refeval::C16, $($arg),*),
